@@ -1113,7 +1113,7 @@ def run(ctx):
     cov_flags = cov_probe_flags(ctx)
     for f in sorted((VERIF / "corpus" / "C20").glob("cov_*.json")):
         one_cov_case(ctx, json.loads(f.read_text()), cov_flags, label=f.name)
-    for _ in range(ctx.n(40, 600)):
+    for _ in range(ctx.n(40, 300)):
         one_cov_case(ctx, gen_cov_case(ctx.rng), cov_flags)
     ctx.notes["known_witness_not_reproduced"] = sorted(
         k["id"] for k in ctx.known if k.get("status") == "known" and k["id"] not in ctx.known_hits)
